@@ -139,7 +139,24 @@ pub fn case_history(va: &dyn VariantApi, h: &History, st: &CaseStats) -> Result<
                             // every other fork goes through `Clone::clone_from` into a generator
                             // that is in a different state (0..=5 or 300 bytes fed) instead of `clone`
                             let fed = live[0].fed;
-                            let c = if (forks_used + fed + data.len()) % 2 == 1 {
+                            let sel = forks_used + fed + data.len();
+                            let c = if sel % 4 == 3 && live[0].g.state().map(|s| s.tail_len == 4).unwrap_or(false) {
+                                // clone_from into a generator that agrees with the source in all
+                                // but ONE component (hook): an "already equal, nothing to do"
+                                // shortcut keyed on a partial comparison leaves that one stale
+                                let mut dst = live[0].g.state().unwrap();
+                                match (sel / 4) % 4 {
+                                    0 => {
+                                        let k = (sel / 16) % v.buckets;
+                                        dst.buckets[k] = dst.buckets[k].wrapping_add(1 + (sel as u32 % 7));
+                                    }
+                                    1 => dst.checksum[0] ^= 0x5A,
+                                    2 => dst.tail[(sel / 16) % 4] ^= 0x81,
+                                    _ => dst.len = dst.len.wrapping_add(1),
+                                }
+                                st.class("event: fork by clone_from into a nearly equal generator");
+                                live[0].g.boxed_clone_from_state(&dst).unwrap_or_else(|| live[0].g.boxed_clone())
+                            } else if sel % 2 == 1 {
                                 let pre = [0usize, 1, 2, 3, 4, 5, 300][(fed + 3 * forks_used + data.len()) % 7];
                                 st.class("event: fork by clone_from");
                                 live[0].g.boxed_clone_from(&vec![0xA5u8; pre])
